@@ -54,7 +54,40 @@ def run_property(prop, tier, seed, only=None, verbose=False):
         obligations += extra_info.get('obligations', [])
     discharge.discharge([o for o in obligations if not getattr(o, 'decided', False)], timeout_ms=timeout_ms, fallbacks=True)
     refute_bounded(obligations, verbose, bound=getattr(mod, 'REFUTE_BOUND', 3))
-    return report.conclude(prop, tier, seed, mod, cresults, obligations, time.time() - t0, extra_info, verbose=verbose)
+    thorough_rc = 0
+    if tier == 'thorough' and not only:
+        extra_info = extra_info or {}
+        extra_info['thorough'], thorough_rc = thorough_extras(prop, seed)
+    rc = report.conclude(prop, tier, seed, mod, cresults, obligations, time.time() - t0, extra_info, verbose=verbose)
+    if rc == 0 and thorough_rc:
+        print('CHECKER-ERROR: thorough-tier self checks failed (axiom cross-check or kill list), see evidence coverage.extra')
+        return 3
+    return rc
+
+
+def thorough_extras(prop, seed):
+    """Thorough tier: (1) cross-check the numpy/stdlib axioms against the real numpy on random inputs; (2) run the
+    property's kill list (selftest/mutations/<id>.json) on scratch copies: every property-breaking edit must be
+    reported, every harmless edit must stay quiet.  These check the CHECKER; a failure is exit 3, never a violation."""
+    info, rc = {}, 0
+    script = "import sys; sys.path.insert(0, %r)\nfrom native import axioms\nsys.exit(0 if axioms.run(seed=%d) else 1)\n" % (HERE, seed)
+    arc, out, err = report.run_native(script, timeout=600)
+    info['axiom_cross_check'] = (out.strip().split('\n') or [''])[-1][:400]
+    if arc != 0:
+        rc = 3
+    if not os.environ.get('VERIF_REPO') and not os.environ.get('VERIF_NO_SELFTEST'):
+        try:
+            p = subprocess.run([sys.executable, os.path.join(HERE, 'selftest', 'run.py'), prop, '--jobs=6'], capture_output=True, text=True, timeout=5400)
+            lines = [l for l in p.stdout.split('\n') if l and not l.startswith('    ')]
+            info['kill_list'] = lines[-40:]
+            stale = sum(1 for l in lines if l.startswith('STALE'))
+            bad = [l for l in lines if l.startswith('MISSED') or l.startswith('FALSE-ALARM')]
+            info['kill_list_summary'] = dict(entries=len(lines) - 1, unexpected=len(bad), stale=stale)
+            if bad:
+                rc = 3
+        except subprocess.TimeoutExpired:
+            info['kill_list'] = ['timed out']
+    return info, rc
 
 
 def refute_bounded(obligations, verbose=False, bound=3):
